@@ -333,7 +333,7 @@ class Candidate:  # pylint: disable=too-many-instance-attributes
         # Sort based on tags to make sure the most specific distributions
         # are matched first
         self._sortkey: Optional[
-            Tuple[packaging.version.Version, str, int, Tuple[int, int, int, int]]
+            Tuple[packaging.version.Version, str, int, Tuple[int, int, int, int], str]
         ] = None
         self.extra_sort_info = extra_sort_info
 
@@ -345,13 +345,16 @@ class Candidate:  # pylint: disable=too-many-instance-attributes
     @property
     def sortkey(
         self,
-    ) -> Tuple[packaging.version.Version, str, int, Tuple[int, int, int, int]]:
+    ) -> Tuple[packaging.version.Version, str, int, Tuple[int, int, int, int], str]:
         if self._sortkey is None:
             self._sortkey = (
                 self.version,
                 self.extra_sort_info,
                 self.type.value,
                 self.tag_score,
+                # Files that rank equally are told apart by name, so the result
+                # does not depend on the order an index lists them in.
+                self.filename if isinstance(self.filename, str) else "",
             )
         return self._sortkey
 
